@@ -246,7 +246,7 @@ pub fn decode(data: &[u8], prof: &Profile) -> Scenario {
     }
     let mut sc = Scenario { cfg, slots, init, steps, motif: 0 };
     if (255 - mb as u16) < prof.p_motif {
-        plant_motif(&mut sc, mb, mv);
+        plant_motif(&mut sc, feat, mv);
     }
     sc
 }
@@ -264,20 +264,47 @@ fn set_slot(sc: &mut Scenario, i: usize, kind: Kind, deps: &[usize]) {
 }
 
 /// Structures that matter for several properties but are rare under uniform generation
-/// (measured: about 1 in 100k scenarios) are planted into the first slots of the scenario; the
-/// remaining slots, their dependencies into the motif, schedules and later steps stay random.
+/// (measured: about 1 in 100k scenarios) are planted into the first slots of the scenario (which is
+/// grown to the size the motif needs); the remaining slots, their dependencies into the motif,
+/// schedules and later steps stay random.
 ///  0: an up-to-date Ephemeral P that is only needed late (its consumer W is invalidated by an
 ///     Always job Q finishing with a changed output) while its other consumer U was already
-///     skipped and U's dependants are on offer; P then fails (or not)
+///     skipped and U's dependants X, Z are skipped / delayed / on offer; P then fails, changes its
+///     output (flaky), or succeeds. Extended form: a second Ephemeral E feeding Z and D2, so that E
+///     is executed, finished and possibly offered for cleanup when the failure reaches Z
 ///  1: a chain of three up-to-date Ephemerals above an Output whose other input changes late
 ///  2: an Ephemeral with two consumers, one of which has a second input that fails or changes
 ///     while the Ephemeral runs (concurrency)
-fn plant_motif(sc: &mut Scenario, mb: u8, mv: u8) {
-    let n = sc.slots.len();
+fn ensure_slots(sc: &mut Scenario, need: usize) {
+    while sc.slots.len() < need {
+        let i = sc.slots.len();
+        sc.slots.push(SlotDef { kind: Kind::Output, coarse: false, ign: vec![0; i], flaky: false });
+        sc.init.push(SlotInit { active: true, parts: 1, deps: vec![] });
+    }
+}
+
+fn plant_motif(sc: &mut Scenario, feat: u16, mv: u8) {
     let which = mv % 3;
-    let need = [6, 6, 4][which as usize];
-    if n < need {
-        return;
+    let var = mv / 3;
+    let extended = which == 0 && var & 8 != 0;
+    let need = match which {
+        0 => if extended { 8 } else { 6 },
+        1 => 6,
+        _ => 4,
+    };
+    ensure_slots(sc, need);
+    // a grown scenario needs longer choice streams (derived from the generated ones)
+    let want = 3 * sc.slots.len() + 4;
+    for st in sc.steps.iter_mut() {
+        for sch in std::iter::once(&mut st.plan.sched).chain(st.plan.alts.iter_mut()) {
+            let old = sch.choices.len().max(1);
+            let mut i = 0usize;
+            while sch.choices.len() < want {
+                let b = sch.choices.get(i % old).cloned().unwrap_or(0);
+                sch.choices.push(b.wrapping_mul(37).wrapping_add((i as u8).wrapping_mul(101)) ^ mv);
+                i += 1;
+            }
+        }
     }
     while sc.steps.len() < 2 {
         let st = sc.steps[0].clone();
@@ -287,7 +314,6 @@ fn plant_motif(sc: &mut Scenario, mb: u8, mv: u8) {
     // first evaluation: a clean build of the motif
     sc.steps[0].plan.fail = 0;
     sc.steps[0].plan.abort = None;
-    let var = mv / 3;
     match which {
         0 => {
             set_slot(sc, 0, Kind::Always, &[]);
@@ -295,16 +321,34 @@ fn plant_motif(sc: &mut Scenario, mb: u8, mv: u8) {
             set_slot(sc, 2, Kind::Output, &[1]);
             set_slot(sc, 3, Kind::Output, &[0, 1]);
             set_slot(sc, 4, if var & 1 == 0 { Kind::Ephemeral } else { Kind::Output }, &[2]);
-            set_slot(sc, 5, Kind::Output, &[4]);
+            let mut edits = vec![Edit::Bump(0)];
+            let mut clear = 0b111101u32;
+            if extended {
+                set_slot(sc, 5, Kind::Ephemeral, &[]);
+                set_slot(sc, 6, Kind::Output, &[4, 5]);
+                set_slot(sc, 7, Kind::Output, &[5]);
+                if var & 16 == 0 {
+                    edits.push(Edit::Delete(7, 1));
+                }
+                clear |= 0b11000000;
+            } else {
+                set_slot(sc, 5, Kind::Output, &[4]);
+            }
+            let plan_fail = var & 2 == 0;
+            if !plan_fail && var & 4 == 0 && feat & F_FLAKY != 0 {
+                sc.slots[1].flaky = true;
+            }
             let st = &mut sc.steps[1];
-            st.edits = vec![Edit::Bump(0)];
+            st.edits = edits;
             st.plan.abort = None;
-            st.plan.fail &= !0b111101;
-            if var & 2 == 0 {
+            st.plan.fail &= !clear;
+            if plan_fail {
                 st.plan.fail |= 0b10;
+            } else if sc.slots[1].flaky {
+                st.plan.fail &= !0b10;
             }
             if st.plan.sched.max_running < 2 {
-                st.plan.sched.max_running = 2 + (var >> 2) % 3;
+                st.plan.sched.max_running = 2 + (var >> 5) % 3;
             }
         }
         1 => {
@@ -339,5 +383,4 @@ fn plant_motif(sc: &mut Scenario, mb: u8, mv: u8) {
             }
         }
     }
-    let _ = mb;
 }
